@@ -62,7 +62,8 @@ V: List[Tuple[str, str, str, str, Any, Any, Optional[str]]] = [
     ("C06", "new per-render global without release", "breaking", S + "perfutil/component.py", ("component_renderer_cache: Dict[str, Tuple[ComponentRenderer, str]] = {}\n", "    component_renderer_cache[render_id] = (renderer, component_name)\n"), ("component_renderer_cache: Dict[str, Tuple[ComponentRenderer, str]] = {}\n_dbg_seen: Dict[str, str] = {}\n", "    component_renderer_cache[render_id] = (renderer, component_name)\n    _dbg_seen[render_id] = component_name\n"), "S0"),
     ("C06", "exception swallowed in _render", "breaking", S + "component.py", "            except Exception as err:\n                raise err from None", "            except Exception as err:\n                return \"\"", "S3"),
     ("C06", "payload used without str()", "breaking", S + "util/exception.py", "            orig_msg = str(err.args[0])\n", "            orig_msg = err.args[0]\n", "S3"),
-    ("C06", "normal-path release made conditional", "breaking", S + "component.py", "            component_context_cache.pop(render_id, None)  # type: ignore[arg-type]\n            unregister_provide_reference(render_id)  # type: ignore[arg-type]", "            if html:\n                component_context_cache.pop(render_id, None)  # type: ignore[arg-type]\n            unregister_provide_reference(render_id)  # type: ignore[arg-type]", "S1d"),
+    ("C06", "sweep back in the except handler only", "breaking", S + "perfutil/component.py", "        output = _render_component_tree(render_id, on_component_rendered_callbacks)\n    finally:", "        output = _render_component_tree(render_id, on_component_rendered_callbacks)\n    except Exception:", "S1c"),
+    ("C06", "normal-path release made conditional (harmless since the sweep runs in finally, F47)", "preserving", S + "component.py", "            component_context_cache.pop(render_id, None)  # type: ignore[arg-type]\n            unregister_provide_reference(render_id)  # type: ignore[arg-type]", "            if html:\n                component_context_cache.pop(render_id, None)  # type: ignore[arg-type]\n            unregister_provide_reference(render_id)  # type: ignore[arg-type]", None),
     ("C06", "two releases swapped", "preserving", S + "component.py", "            component_context_cache.pop(render_id, None)\n            unregister_provide_reference(render_id)\n            raise", "            unregister_provide_reference(render_id)\n            component_context_cache.pop(render_id, None)\n            raise", None),
     # ---- C07
     ("C07", "live iteration of a registry on a render path", "breaking", S + "perfutil/provide.py", "    all_reference_ids.add(reference_id)\n", "    all_reference_ids.add(reference_id)\n    _n = len([k for k in provide_references])\n", "S1-W"),
